@@ -61,6 +61,22 @@ theorem waterDiffusivityU_eq (τ K m s : ℝ) (hK : K ≠ 0) :
   rw [this]
   ring
 
+theorem waterDiffusivityErrU_eq (τ e0 e1 K m s : ℝ) (hK : K ≠ 0) :
+    waterDiffusivityErrU (τ * K) e0 e1 K m s = waterDiffusivityErr τ e0 e1 * (m ^ 2 / s) := by
+  simp only [waterDiffusivityErrU, waterDiffusivityErr, NumReal.npow_eq_pow, NumReal.dec_eq, NumReal.rpow_def,
+    Int.cast_ofNat, Nat.cast_ofNat, Nat.cast_one, Int.cast_neg]
+  have : ∀ a b : ℝ, τ * K / (a * K + e1 * (b * K)) = τ / (a * 1 + e1 * (b * 1)) := by
+    intro a b
+    rw [show τ * K = K * τ by ring, show a * K + e1 * (b * K) = K * (a * 1 + e1 * (b * 1)) by ring, cancel_div hK]
+  rw [this]
+  ring
+
+/-- without perturbation the err_mult variant is the plain correlation -/
+theorem waterDiffusivityErr_zero (T : ℝ) : waterDiffusivityErr T 0 0 = waterDiffusivity T := by
+  simp only [waterDiffusivityErr, waterDiffusivity, NumReal.npow_eq_pow, NumReal.dec_eq, NumReal.rpow_def,
+    Int.cast_ofNat, Nat.cast_ofNat, Nat.cast_one, Int.cast_neg]
+  norm_num
+
 theorem waterPermittivityU_eq (τ p K bar : ℝ) (hK : K ≠ 0) (hb : bar ≠ 0) :
     waterPermittivityU (τ * K) (p * bar) K bar = waterPermittivity τ p := by
   simp only [waterPermittivityU, waterPermittivity, NumReal.npow_eq_pow, NumReal.dec_eq, NumReal.exp_def, NumReal.log_def, toUnitless_def,
@@ -326,6 +342,14 @@ theorem Henry.vant_hoff (h : Henry ℝ) (T : ℝ) (hH : 0 < h.Hcp) :
 
 theorem Henry.at_T0 (h : Henry ℝ) : h.call (h.T0.getD 298.15) = h.Hcp := by
   rw [Henry.call_eq]; simp
+
+/-- a Henry object whose `Tderiv`, `T0` are quantities in the unit `K`, called with a temperature in that unit and the units object:
+    the plain object's value (in particular the instance's reference temperature is used) -/
+theorem Henry.callU_inUnit (h : Henry ℝ) (τ K : ℝ) (hK : K ≠ 0) : (h.inUnit K).callU (τ * K) K = h.call τ := by
+  obtain ⟨H, θ, T0⟩ := h
+  cases T0 with
+  | none => simp only [Henry.callU, Henry.call, Henry.inUnit, Option.map_none, henryHAtTDefaultU_eq τ H θ K hK]
+  | some t0 => simp only [Henry.callU, Henry.call, Henry.inUnit, Option.map_some, henryHAtTU_eq τ H θ t0 K hK]
 
 /-! Nernst -/
 theorem nernst_eq (a b z T : ℝ) : nernstPotential a b z T = (8.3144598 * T) / (z * 96485.33289) * Real.log (a / b) := by
